@@ -184,8 +184,11 @@ type replyConn struct {
 	ReplyFunc func(n int, req []byte) []byte
 }
 
-func newReplyConn(replies ...[]byte) *replyConn {
-	rc := &replyConn{ScriptConn: xport.NewScriptConn(nil, nil), replies: replies}
+func newReplyConn(replies ...[]byte) *replyConn { return newReplyConnChunked(nil, replies...) }
+
+// newReplyConnChunked delivers the replies under the given read chunking.
+func newReplyConnChunked(chunks []int, replies ...[]byte) *replyConn {
+	rc := &replyConn{ScriptConn: xport.NewScriptConn(nil, chunks), replies: replies}
 	rc.ScriptConn.NoLog = true
 	rc.ScriptConn.OnWrite = func(c *xport.ScriptConn, p []byte) {
 		rc.buf = append(rc.buf, p...)
